@@ -17,6 +17,7 @@
 import Nq.Basic
 import Nq.Quote
 import Nq.Gen.Consts
+import Nq.Gen.StripVdom
 
 namespace Nq.Bounce
 open Nq
@@ -137,13 +138,16 @@ def userStripGo (es : List (Bytes × Bytes)) : Bytes → Bytes → Option Bytes
       | none => userStripGo es (pre ++ [c]) r
     else userStripGo es (pre ++ [c]) r
 
-/-- `stripvdomprepend(recip)`: nothing without '@'; nothing for a domain in `locals`; then the
-virtual-user loop; then the domain loop -/
-def stripvdom (t : Tables) (recip : Bytes) : Bytes :=
+/-- `stripvdomprepend(recip)`: nothing without '@'; nothing for a domain in `locals`; (`whole`: nothing
+for a recipient that has an exception entry of its own — the statement of notes/C14-fix-3.diff;) then
+the virtual-user loop; then the domain loop.  `whole = false` transcribes the function without that
+statement. -/
+def stripvdomW (whole : Bool) (t : Tables) (recip : Bytes) : Bytes :=
   match domainOf recip with
   | none => recip
   | some d =>
     if cmMember t.locals d then recip else
+    if whole && cmLookup t.vdoms recip == some [] then recip else
     match userStripGo t.vdoms [] recip with
     | some r => r
     | none =>
@@ -151,6 +155,10 @@ def stripvdom (t : Tables) (recip : Bytes) : Bytes :=
       | none => recip
       | some p =>
         if !p.isEmpty && (p ++ [DASH]).isPrefixOf recip then recip.drop (p.length + 1) else recip
+
+/-- `stripvdomprepend(recip)` of the source tree being checked: whether it has the whole-recipient
+lookup is read from qmail-send.c by the translator (tools/extractors/c14.py) -/
+def stripvdom (t : Tables) (recip : Bytes) : Bytes := stripvdomW Gen.stripWholeFirst t recip
 
 /-! ### addbounce() -/
 
